@@ -11,6 +11,8 @@
 #include <masa.h>
 #include <functional>
 #include <algorithm>
+#include <sys/wait.h>
+#include <unistd.h>
 namespace MASA { void masa_verif_reset(); }
 
 // ------------------------------------------------------------------ specification data (generated from spec/capabilities.json)
@@ -67,6 +69,7 @@ struct HistConfig {
   bool audit_every_step = false;               // compare every parameter of every handle after every step (C12/C16 thoroughness)
   bool c_interface = true;
   std::string stop_on;                         // "" = stop at the first failure of any property
+  int fatal_mode = 0;                          // C16: 0 = exception build, catch int in-process; 1 = exit() build, observe a forked child
 };
 
 struct History {
@@ -238,10 +241,50 @@ struct History {
       default: break; }
   }
 
+
+  // ---------------------------------------------------------------- C16: misuse at an arbitrary point of the history
+  struct FatalOutcome { bool terminated = false; int code = -1; std::string out; bool returned = false; };
+  FatalOutcome provoke(const std::function<void()> &call) { FatalOutcome f;
+    if (cfg.fatal_mode == 0) { Quiet q; try { call(); f.returned = true; } catch (int e) { f.terminated = true; f.code = e; } catch (...) { f.terminated = true; f.code = -2; } f.out = q.str(); return f; }
+    int pfd[2]; if (pipe(pfd) != 0) return f; fflush(stdout); std::cout.flush(); pid_t pid = fork();
+    if (pid == 0) { close(pfd[0]); dup2(pfd[1], 1); close(pfd[1]); call(); std::cout.flush(); _exit(42); }
+    close(pfd[1]); char buf[4096]; ssize_t n; while ((n = read(pfd[0], buf, sizeof buf)) > 0) f.out.append(buf, n); close(pfd[0]); int st = 0; waitpid(pid, &st, 0);
+    if (WIFEXITED(st)) { if (WEXITSTATUS(st) == 42) f.returned = true; else { f.terminated = true; f.code = WEXITSTATUS(st); } } else { f.terminated = true; f.code = -1000 - (WIFSIGNALED(st) ? WTERMSIG(st) : 0); }
+    return f; }
+  template <class Scalar> std::vector<std::pair<std::string, std::function<void()>>> &needs_solution() { static std::vector<std::pair<std::string, std::function<void()>>> v; if (!v.empty()) return v; using namespace MASA;
+    static Scalar a4[4] = {(Scalar)0.3, (Scalar)0.4, (Scalar)0.5, (Scalar)0.6};
+    for (auto &e : api_table<Scalar>()) { auto fn = e.fn; v.push_back({e.id, [fn]() { fn(a4, 1, &cb_fn<Scalar>); }}); }
+    v.push_back({"masa_set_param", []() { masa_set_param<Scalar>("L", (Scalar)1); }}); v.push_back({"masa_get_param", []() { masa_get_param<Scalar>("L"); }}); v.push_back({"masa_init_param", []() { masa_init_param<Scalar>(); }});
+    v.push_back({"masa_purge_default_param", []() { masa_purge_default_param<Scalar>(); }}); v.push_back({"masa_sanity_check", []() { masa_sanity_check<Scalar>(); }}); v.push_back({"masa_display_param", []() { masa_display_param<Scalar>(); }});
+    v.push_back({"masa_display_vec", []() { masa_display_vec<Scalar>(); }}); v.push_back({"masa_set_vec", []() { std::vector<Scalar> x(2, (Scalar)1); masa_set_vec<Scalar>("vec_data", x); }}); v.push_back({"masa_get_vec", []() { std::vector<Scalar> x; masa_get_vec<Scalar>("vec_data", x); }});
+    v.push_back({"masa_get_name", []() { std::string n; masa_get_name<Scalar>(&n); }}); v.push_back({"masa_get_dimension", []() { int d; masa_get_dimension<Scalar>(&d); }});
+    if (sizeof(Scalar) == 8) { static double d4[4] = {0.3, 0.4, 0.5, 0.6}; for (auto &e : capi_table()) { auto fn = e.fn; v.push_back({std::string("C ") + e.name, [fn]() { fn(d4, 1, &ccb); }}); }
+      v.push_back({"C masa_set_param", []() { ::masa_set_param("L", 1.0); }}); v.push_back({"C masa_get_param", []() { ::masa_get_param("L"); }}); v.push_back({"C masa_init_param", []() { ::masa_init_param(); }}); v.push_back({"C masa_sanity_check", []() { ::masa_sanity_check(); }});
+      v.push_back({"C masa_purge_default_param", []() { ::masa_purge_default_param(); }}); v.push_back({"C masa_display_param", []() { ::masa_display_param(); }}); v.push_back({"C masa_display_array", []() { ::masa_display_array(); }});
+      v.push_back({"C masa_get_name", []() { char b[128]; ::masa_get_name(b); }}); v.push_back({"C masa_get_dimension", []() { int d; ::masa_get_dimension(&d); }});
+      v.push_back({"C masa_get_array", []() { int n = 0; double b[64]; ::masa_get_array("vec_data", &n, b); }}); v.push_back({"C masa_set_array", []() { int n = 2; double b[2] = {1, 2}; ::masa_set_array("vec_data", &n, b); }}); }
+    return v; }
+  template <class Scalar> void step_fatal(const Op &o) { int P = sizeof(Scalar) > 8; Registry &R = reg[P]; using namespace MASA; int kind = o.n % 3; if (kind == 0 && R.has_selected) kind = 1 + (o.n / 3) % 2;
+    std::string what; std::function<void()> call;
+    if (kind == 0) { auto &L = needs_solution<Scalar>(); auto &e = L[(unsigned)o.api % L.size()]; what = e.first + std::string(P ? "<long double>" : "<double>") + " before any masa_init"; call = e.second; cls["fatal:api_on_empty_registry"]++; }
+    else if (kind == 1) { std::string h = std::string(HANDLES[(unsigned)o.h % NHANDLES]) + (o.p % 2 ? "?" : " "); while (R.handles.count(h)) h += "?"; bool c = !P && (o.idx & 1); what = std::string(c ? "C " : "") + "masa_select_mms('" + h + "') of an unknown handle"; if (c) call = [h]() { ::masa_select_mms(h.c_str()); }; else call = [h]() { masa_select_mms<Scalar>(h); }; cls["fatal:select_unknown_handle"]++; }
+    else { std::string s = cfg.catalogue[(unsigned)o.s % cfg.catalogue.size()]; int m = o.p % 4; if (m == 0 && s.size() > 2) s.erase((o.p / 4) % s.size(), 1); else if (m == 1) s += "x"; else if (m == 2) s = "_" + s; else s = "no such solution";
+      std::string h = HANDLES[(unsigned)o.h % NHANDLES]; bool c = !P && (o.idx & 1); what = std::string(c ? "C " : "") + "masa_init('" + h + "','" + s + "') of an unknown solution name" + (R.handles.count(h) ? " onto an existing handle" : " onto a new handle"); cls[R.handles.count(h) ? "fatal:init_unknown_name_existing_handle" : "fatal:init_unknown_name_new_handle"]++;
+      if (c) call = [h, s]() { ::masa_init(h.c_str(), s.c_str()); }; else call = [h, s]() { masa_init<Scalar>(h, s); }; }
+    trace.back() += " " + what; if (step > 1) cls["fatal:after_nonempty_prefix"]++; if (reg[0].handles.size() + reg[1].handles.size() >= 2) cls["fatal:with>=2_live_handles"]++;
+    FatalOutcome f = provoke(call);
+    if (f.returned) { fail("C16", what + " returned normally instead of raising the fatal error"); return; }
+    if (f.code != 1) { fail("C16", what + (cfg.fatal_mode ? " ended the process with status " : " threw ") + std::to_string(f.code) + " instead of 1"); return; }
+    if (f.out.find("MASA FATAL ERROR") == std::string::npos) { fail("C16", what + " did not report 'MASA FATAL ERROR' (output: '" + f.out.substr(0, 100) + "')"); return; }
+    // caught: registry, selection and every parameter exactly as before (the model did not move)
+    if (cfg.fatal_mode == 0) { audit_all("C16", "after the caught fatal error of " + what); if (!failed()) { for (int p = 0; p < 2; p++) if (reg[p].has_selected) { std::string nm; { Quiet q; if (p) masa_get_name<long double>(&nm); else masa_get_name<double>(&nm); } if (nm != reg[p].handles[reg[p].selected].name) fail("C16", "selection changed by the failed call: " + what); } } }
+  }
+
   void run_step(const Op &raw) { Op o = raw; o.code = (int)((unsigned)o.code % OP_COUNT); o.prec &= 1; step++; trace.push_back(std::string(OP_NAMES[o.code]) + (o.code < OP_CINIT ? (o.prec ? "<long double>" : "<double>") : ""));
     cls[std::string("op:") + OP_NAMES[o.code]]++;
     if (o.code >= OP_CINIT && o.code < OP_FATAL) { if (cfg.c_interface) step_c(o); }
     else if (o.code < OP_CINIT) { if (o.prec) step_cpp<long double>(o); else step_cpp<double>(o); }
+    else if (o.code == OP_FATAL) { if (o.prec) step_fatal<long double>(o); else step_fatal<double>(o); }
     if (!failed() && cfg.audit_every_step) audit_all("C12", "after step " + std::to_string(step) + " (" + trace.back() + ")");
   }
 
